@@ -930,6 +930,10 @@ package jsonpath
 //@   unfold 0 <= vdepth(left) && (isType(left, map[string]interface{}) ==> (forall k Str {asType(left, map[string]interface{})[k]} :: 0 <= vdepth(asType(left, map[string]interface{})[k]) && vdepth(asType(left, map[string]interface{})[k]) < vdepth(left))) && (isType(left, []interface{}) ==> (forall j {asType(left, []interface{})[j]} :: 0 <= j && j < len(asType(left, []interface{})) ==> 0 <= vdepth(asType(left, []interface{})[j]) && vdepth(asType(left, []interface{})[j]) < vdepth(left)))
 //@   decreases vdepth(left)
 //@   assume ret == deepEq(left, right)
+// C09 / C10 (equality is symmetric and member-wise): a member of the left container is compared only with the member of the
+// right container that has the same name / index and exists
+//@   before deepEqualByValue#1 assert samename: has(asType(right, map[string]interface{}), key) && arg0 == asType(left, map[string]interface{})[key] && arg1 == asType(right, map[string]interface{})[key]
+//@   before deepEqualByValue#2 assert sameindex: 0 <= index && index < len(asType(right, []interface{})) && len(asType(left, []interface{})) == len(asType(right, []interface{})) && arg0 == asType(left, []interface{})[index] && arg1 == asType(right, []interface{})[index]
 //@ func equalsNumber
 //@   props C03 C04 C05 C06 C10 C20 C09
 //@ func (*syntaxCompareGE).comparator
